@@ -1,9 +1,11 @@
 #!/bin/bash
-# run every registered check of one tier sequentially; logs under .work/logs; summary on stdout
-tier=${1:-quick}
+# run every registered check (or the listed ones: run_all.sh <tier> C05 C06 ...) of one tier sequentially; logs under .work/logs; summary on stdout
+tier=${1:-quick}; shift
+ids="$@"
 cd "$(dirname "$0")/.."
 mkdir -p .work/logs
-for id in $(python3 -c "import json;print(' '.join(c['property_id'] for c in json.load(open('MANIFEST.json'))['checks']))"); do
+[ -z "$ids" ] && ids=$(python3 -c "import json;print(' '.join(c['property_id'] for c in json.load(open('MANIFEST.json'))['checks']))")
+for id in $ids; do
   s=$(date +%s)
   timeout 5400 bin/check $id $tier > .work/logs/$id.$tier.log 2>&1
   rc=$?
